@@ -276,8 +276,20 @@ Definition zone_range (z : zone) (lo hi : option value) (lo_incl hi_incl : bool)
 
 Inductive cmpop := OpEq | OpNe | OpLt | OpLe | OpGt | OpGe.
 
-(** PropertyColumn::might_match *)
+(** PropertyColumn::might_match (since fix 1879631 [<>] is never pruned) *)
 Definition col_might_match (c : column) (o : cmpop) (v : value) : bool :=
+  if c_dirty c then true
+  else match o with
+       | OpEq => zone_eq (c_zone c) v
+       | OpNe => true
+       | OpLt => zone_lt (c_zone c) v false
+       | OpLe => zone_lt (c_zone c) v true
+       | OpGt => zone_gt (c_zone c) v false
+       | OpGe => zone_gt (c_zone c) v true
+       end.
+
+(** the pre-1879631 behaviour: [<>] was pruned when min == max == v *)
+Definition col_might_match_pre (c : column) (o : cmpop) (v : value) : bool :=
   if c_dirty c then true
   else match o with
        | OpEq => zone_eq (c_zone c) v
@@ -298,6 +310,8 @@ Definition col_might_match (c : column) (o : cmpop) (v : value) : bool :=
 (** PropertyStorage::might_match / might_match_range (the latter does not look at the dirty flag) *)
 Definition ps_might_match (p : pstore) (key : Z) (o : cmpop) (v : value) : bool :=
   match zget p key with Some c => col_might_match c o v | None => true end.
+Definition ps_might_match_pre (p : pstore) (key : Z) (o : cmpop) (v : value) : bool :=
+  match zget p key with Some c => col_might_match_pre c o v | None => true end.
 Definition ps_might_match_range (p : pstore) (key : Z) (lo hi : option value) (li hi_i : bool) : bool :=
   match zget p key with Some c => zone_range (c_zone c) lo hi li hi_i | None => true end.
 
